@@ -314,7 +314,10 @@ impl Search<'_> {
             let op_key = match &self.scn.threads[h.thread][h.index] {
                 // (the instance stays part of the key: without `std` a panic induced through the
                 // original disables its verification, so the routing is observable)
-                Op::Call { slot, m, x, y, .. } => Op::Call { slot: *slot, m: *m, x: *x, y: *y, catch: true, fault: None, keep: false },
+                Op::Call { slot, m, x, y, .. } => {
+                    let slot = if cfg!(feature = "stdworld") { 0 } else { *slot };
+                    Op::Call { slot, m: *m, x: *x, y: *y, catch: true, fault: None, keep: false }
+                }
                 o => o.clone(),
             };
             if tried.contains(&op_key) {
@@ -386,7 +389,10 @@ pub fn check_c10(scn: &Scenario) -> Checked {
         Some((o, _)) => hist.iter().all(|h| h.ret < o.start_step) && res.log.calls.iter().all(|c| c.return_step < o.start_step),
         None => false,
     };
-    let lifecycle_panic = matches!(&final_verdict, Some(OpResult::Panicked(m)) if m.contains("clones still alive") || m.contains("different thread"));
+    let lifecycle_panic = match finals.last() {
+        Some((o, _)) => !crate::oracle::ordinary_verdict_expected(scn, &res.log, o),
+        None => true,
+    };
     if !joined || lifecycle_panic || finals.len() != 1 {
         stats.nontrivial = false;
         return Checked { violations, stats, harness_error: None };
@@ -604,7 +610,7 @@ pub fn check_c08(scn: &Scenario) -> Checked {
         Op::Verify { .. } => "verify",
         _ => "report",
     };
-    let lifecycle = matches!(&o.result, OpResult::Panicked(m) if m.contains("clones still alive") || m.contains("different thread"));
+    let lifecycle = !crate::oracle::ordinary_verdict_expected(scn, &res.log, o);
     if lifecycle {
         // C09 decides: a clone was still alive (e.g. owned by a thread that was not joined)
         return Checked { violations, stats, harness_error: None };
